@@ -592,6 +592,19 @@ class EndpointResponseHandlerGenerator:
             writer.write_line(f"return {deserialization_code}")
             self._register_imports_for_type(strategy.return_type, context)
         else:
+            # A str/bytes result declared with a non-JSON media type (text/plain, text/csv, ...) is the body itself,
+            # not a JSON document
+            media_types = [
+                ct.split(";")[0].strip().lower()
+                for ct in (strategy.response_ir.content.keys() if strategy.response_ir and strategy.response_ir.content else [])
+            ]
+            is_json_media = any(ct == "application/json" or ct.endswith("+json") for ct in media_types)
+            if strategy.return_type == "str" and media_types and not is_json_media:
+                writer.write_line("return response.text")
+                return
+            if strategy.return_type == "bytes" and media_types and not is_json_media:
+                writer.write_line("return response.content")
+                return
             context.add_import("typing", "cast")
             writer.write_line(f"return cast({strategy.return_type}, {data_expr})")
 
